@@ -392,6 +392,8 @@ pub fn book_scenarios(tier: Tier) -> Vec<Scenario> {
     v.push(crate::catalogue::with_legacy_seed(scen("B11/P1/F1/R0", Cfg::new(0, 2, ("0.25", "0.25"), "R0"), slim(Menu { prices: vec!["2"], ..menu_p1(1, 1) }), vec![])));
     // prices that are not written in their shortest form ("1.50")
     v.push(scen("B11/P2/F1/R0", Cfg::new(1, 10, ("0.25", "0.25"), "R0"), slim(Menu { prices: vec!["1.5", "1.50"], match_sizes: vec![10, 20], ..crate::catalogue::menu_p2(1, 1) }), vec![]));
+    // bids that carry an explicit zero fee (their fee rounds to zero) next to bids with a real one
+    v.push(crate::catalogue::with_explicit_zero_fees(scen("B11/P1/F2/R0", Cfg::new(0, 2, ("0.1", "0.1"), "R0"), slim(Menu { prices: vec!["2"], ..menu_p1(1, 1) }), vec![])));
     if tier == Tier::Quick {
         v.push(scen("B11/P1/F1/R0", Cfg::new(0, 2, ("0.25", "0.25"), "R0"), slim(menu_p1(1, 1)), vec![]));
     } else {
